@@ -245,3 +245,122 @@ func TestRendezvousBothMovers(t *testing.T) {
 	}
 	t.Logf("execs=%d", st.Execs)
 }
+
+func hbRaces(t *testing.T, body func()) map[string]bool {
+	found := map[string]bool{}
+	chk := func(x *Exec) string {
+		for _, r := range x.Races() {
+			found[r.Key()] = true
+		}
+		if len(x.Panics) > 0 {
+			return x.Panics[0].Value + x.Panics[0].Stack
+		}
+		return ""
+	}
+	_, v := Explore(body, chk, Bounds{P: 2})
+	if v != nil {
+		t.Fatal(v.Msg)
+	}
+	return found
+}
+
+type hbT struct {
+	a, b int
+	m    MutexState
+}
+
+func TestHBMonitor(t *testing.T) {
+	// unsynchronised write/write
+	r := hbRaces(t, func() {
+		EnableHB()
+		Window(true)
+		x := &hbT{}
+		d := NewSem(0)
+		for i := 0; i < 2; i++ {
+			Go("w", func() { *Wr(&x.a, "site-w") = 1; d.Release() })
+		}
+		d.Acquire()
+		d.Acquire()
+	})
+	if len(r) != 1 {
+		t.Fatalf("expected one race, got %v", r)
+	}
+	// different fields of one struct: no race
+	r = hbRaces(t, func() {
+		EnableHB()
+		Window(true)
+		x := &hbT{}
+		Go("w1", func() { *Wr(&x.a, "a") = 1 })
+		Go("w2", func() { *Wr(&x.b, "b") = 1 })
+		Idle()
+	})
+	if len(r) != 0 {
+		t.Fatalf("disjoint fields must not race: %v", r)
+	}
+	// mutex protected
+	r = hbRaces(t, func() {
+		EnableHB()
+		Window(true)
+		x := &hbT{}
+		for i := 0; i < 2; i++ {
+			Go("w", func() { MutexLock(&x.m); *Wr(&x.a, "locked") = *Rd(&x.a, "locked-r") + 1; MutexUnlock(&x.m) })
+		}
+		Idle()
+	})
+	if len(r) != 0 {
+		t.Fatalf("mutex-protected accesses must not race: %v", r)
+	}
+	// channel hand-off, buffered and unbuffered
+	for _, cp := range []int{0, 1} {
+		r = hbRaces(t, func() {
+			EnableHB()
+			Window(true)
+			x := &hbT{}
+			c := make(chan int, cp)
+			Go("p", func() { *Wr(&x.a, "before-send") = 1; Send(c, 1) })
+			Go("q", func() { Recv(c); *Wr(&x.a, "after-recv") = 2 })
+			Idle()
+		})
+		if len(r) != 0 {
+			t.Fatalf("cap %d: send happens before receive: %v", cp, r)
+		}
+	}
+	// write after send races with the receiver's read
+	r = hbRaces(t, func() {
+		EnableHB()
+		Window(true)
+		x := &hbT{}
+		c := make(chan int, 1)
+		Go("p", func() { Send(c, 1); *Wr(&x.a, "after-send") = 1 })
+		Go("q", func() { Recv(c); _ = *Rd(&x.a, "after-recv") })
+		Idle()
+	})
+	if len(r) != 1 {
+		t.Fatalf("expected the after-send race, got %v", r)
+	}
+	// go statement orders parent's earlier writes before the child
+	r = hbRaces(t, func() {
+		EnableHB()
+		Window(true)
+		x := &hbT{}
+		*Wr(&x.a, "parent") = 1
+		Go("c", func() { _ = *Rd(&x.a, "child") })
+		Idle()
+	})
+	if len(r) != 0 {
+		t.Fatalf("go statement edge missing: %v", r)
+	}
+	// capacity edge: with cap 1, the 2nd send happens after the 1st receive
+	r = hbRaces(t, func() {
+		EnableHB()
+		Window(true)
+		x := &hbT{}
+		c := make(chan int, 1)
+		Go("q", func() { _ = *Rd(&x.a, "reader-before-recv"); Recv(c); Recv(c) })
+		Go("p", func() { Send(c, 1); Send(c, 2); *Wr(&x.a, "writer-after-2nd-send") = 1 })
+		Idle()
+	})
+	if len(r) != 0 {
+		t.Fatalf("capacity edge missing: %v", r)
+	}
+}
